@@ -314,7 +314,7 @@ main(int argc, char **argv)
 	    esl_msa_Destroy(msa);
 	  }
       }
-      esl_msafile_Close(afp);
+      if (! do_small) esl_msafile_Close(afp);   /* both --small branches have closed <afp> already */
     } /* end of alignment->alignment conversion */
   else
     { /* else: conversion to unaligned file formats */
